@@ -29,6 +29,9 @@ pub enum Kind {
     Short(u8),
     /// unrelated bytes of the given length (>= tag length for the in-place API)
     Garbage(u16, u64),
+    /// the next plaintext sealed by the sender at a position that differs from the expected one only
+    /// in bit `b` of the sequence number (b in 0..64): must be rejected like any other position
+    Aliased(u8),
 }
 
 #[derive(Clone, Debug, PartialEq, Eq, Serialize, Deserialize)]
@@ -60,6 +63,7 @@ fn kind_name(k: &Kind) -> &'static str {
         Kind::WrongAad => "wrong-aad",
         Kind::Short(_) => "short-ct",
         Kind::Garbage(..) => "garbage",
+        Kind::Aliased(_) => "aliased-position",
     }
 }
 
@@ -152,6 +156,25 @@ fn check(case: &Case, obs: &mut Obs) -> Verdict {
             Kind::Garbage(len, seed) => {
                 let l = if dl.in_place { (*len as usize % 300).max(nt) } else { *len as usize % 300 };
                 (gen::fill(l, 7, *seed), vec![], false)
+            }
+            Kind::Aliased(b) => {
+                if p >= sealed.len() {
+                    continue;
+                }
+                // seal the same plaintext on the sender at position pos XOR 2^b (hook), then put the
+                // sender back where it was
+                let other = pos ^ (1u64 << (*b % 64));
+                let (s0, latch) = snd.seq_state();
+                if latch {
+                    continue;
+                }
+                snd.set_seq(other);
+                let r = snd.seal(&sealed[p].1.pt, &sealed[p].1.aad);
+                snd.set_seq(s0);
+                match r {
+                    Ok(c) => (c, sealed[p].1.aad.0.clone(), false),
+                    Err(_) => continue,
+                }
             }
         };
         let in_place = dl.in_place && ct.len() >= nt;
@@ -255,6 +278,7 @@ fn delivery() -> BoxedStrategy<Delivery> {
         1 => Just(Kind::WrongAad),
         2 => any::<u8>().prop_map(Kind::Short),
         1 => (any::<u16>(), any::<u64>()).prop_map(|(l, s)| Kind::Garbage(l, s)),
+        2 => (0u8..64).prop_map(Kind::Aliased),
     ];
     (kind, any::<bool>()).prop_map(|(kind, in_place)| Delivery { kind, in_place }).boxed()
 }
@@ -265,7 +289,7 @@ impl Property for P {
         "C05"
     }
     fn rule(&self) -> String {
-        "Generated: (sealing suite or SpyAead, mode, session, start position from every byte-carry boundary / 2^64-1-d / log-uniform / 0 (hook), pool of 1..=8 messages sealed from that position, history of 1..=24 deliveries {next, replay, future, tampered ct bit, tampered tag bit, wrong aad, short (<Nt), garbage} x {open, open_in_place_detached}). \
+        "Generated: (sealing suite or SpyAead, mode, session, start position from every byte-carry boundary / 2^64-1-d / log-uniform / 0 (hook), pool of 1..=8 messages sealed from that position, history of 1..=24 deliveries {next, replay, future, tampered ct bit, tampered tag bit, wrong aad, short (<Nt), garbage, the same plaintext sealed at a position differing in one bit of the sequence number (hook)} x {open, open_in_place_detached}). \
          Swept: every delivery kind x both APIs at start positions {0, 1, 255, 256, 2^64-2, 2^64-1} including the exhausted state. \
          Oracle: model p = successes; only Next succeeds (returning pt_p) and advances by exactly one; everything else gives OpenError and does not move the position (hook state == model after every step); after the success at 2^64-1 every call of either form gives MessageLimitReached with the in-place buffer unchanged; single_shot_open accepts message 0 and rejects message 1. \
          Non-trivial: a history containing success -> rejected delivery -> success, or one that crosses the limit."
@@ -291,7 +315,7 @@ impl Property for P {
     }
     fn sweeps(&self, _tier: Tier) -> Vec<(String, Vec<Case>)> {
         let mut v = Vec::new();
-        let kinds = |x: u16| vec![Kind::Replay(x), Kind::Future(x), Kind::TamperCt(x), Kind::TamperTag(x as u8), Kind::WrongAad, Kind::Short((x % 16) as u8), Kind::Short(0), Kind::Garbage(40 + x % 7, x as u64), Kind::Garbage(0, 1)];
+        let kinds = |x: u16| vec![Kind::Aliased((x % 64) as u8), Kind::Aliased(8), Kind::Aliased(16), Kind::Aliased(24), Kind::Aliased(32), Kind::Aliased(40), Kind::Aliased(48), Kind::Aliased(56), Kind::Aliased(63), Kind::Replay(x), Kind::Future(x), Kind::TamperCt(x), Kind::TamperTag(x as u8), Kind::WrongAad, Kind::Short((x % 16) as u8), Kind::Short(0), Kind::Garbage(40 + x % 7, x as u64), Kind::Garbage(0, 1)];
         for start in [0u64, 1, 255, 256, 65535, u64::MAX - 2, u64::MAX - 1, u64::MAX] {
             for (k, aead) in AeadId::SEALING.into_iter().enumerate() {
                 let s = Suite { kem: KemId::X25519, kdf: KdfId::Sha256, aead };
